@@ -106,6 +106,32 @@ pub fn s2(tier: Tier) -> Vec<Act> {
     a
 }
 
+/// S4: all five sources of the status byte together (error queue, QUES, OPER, ESB, MAV): every
+/// combination is reachable, so that no source may hide or reset another.
+pub fn s4() -> Vec<Act> {
+    let mut a = vec![];
+    a.push(msg1("FOO", U::Fail(RefErr::lib(-113))));
+    a.push(msg1("SYST:ERR?", U::ErrNext));
+    for w in [Which::Oper, Which::Ques] {
+        let n = if w == Which::Oper { "OPER" } else { "QUES" };
+        a.push(Act::SetCond(w, 0));
+        a.push(Act::SetCond(w, 1));
+        a.push(msg1(&format!("STAT:{n}:ENAB 1"), U::RegSet(w, Field::Enable, 1)));
+        a.push(msg1(&format!("STAT:{n}:ENAB 0"), U::RegSet(w, Field::Enable, 0)));
+        a.push(msg1(&format!("STAT:{n}?"), U::RegQ(w, Field::Event)));
+    }
+    a.push(msg1("*ESE 32", U::EseSet(32)));
+    a.push(msg1("*ESE 0", U::EseSet(0)));
+    a.push(msg1("*ESR?", U::Esr));
+    for v in [0u8, 4, 8, 32, 128, 16, 255] {
+        a.push(msg1(&format!("*SRE {v}"), U::SreSet(v)));
+    }
+    a.push(msg1("*STB?", U::Stb));
+    a.push(mav(msg1("*STB?", U::Stb)));
+    a.push(msg1("*CLS", U::Cls));
+    a
+}
+
 /// S3: every value written to *ESE (resp. *SRE) and read back, plus out-of-range and rounding.
 /// Two separate slices so that the state space is 256 values, not their product.
 pub fn s3(ese: bool) -> Vec<Act> {
@@ -147,6 +173,12 @@ pub fn slices(tier: Tier) -> Vec<Slice> {
             max_queue: 0,
         },
         Slice {
+            name: "C16/S4-all-status-byte-sources".into(),
+            q: QKind::Vec,
+            alphabet: s4(),
+            max_queue: 1,
+        },
+        Slice {
             name: "C16/S3-all-ESE-values".into(),
             q: QKind::Vec,
             alphabet: s3(true),
@@ -165,7 +197,7 @@ pub fn run(ctx: &'static Ctx) -> i32 {
     run_slices(
         ctx,
         slices(ctx.tier),
-        "three BFS-to-fixpoint slices over the documented device: S1 (*ESE/*SRE over single bits and 255, *ESR?, *STB? with MAV false/true, *CLS, *OPC, *OPC?, *TST? with self-test ok/failing, *RST, *WAI, one failing message per ESR class, SYST:ERR?, multi-unit combinations; queue length bounded), S2 (OPER and QUES one-bit register sets x SRE in {0,8,128,136} x *STB?), S3 (every value 0..255 and out-of-range/rounded values written to *ESE/*SRE and read back); every transition runs the real Node::run and compares response, return value and all device registers/queue with the 488.2 section 11 reference model; counted non-trivial = state-changing transitions",
+        "three BFS-to-fixpoint slices over the documented device: S1 (*ESE/*SRE over single bits and 255, *ESR?, *STB? with MAV false/true, *CLS, *OPC, *OPC?, *TST? with self-test ok/failing, *RST, *WAI, one failing message per ESR class, SYST:ERR?, multi-unit combinations; queue length bounded), S2 (OPER and QUES one-bit register sets x SRE in {0,8,128,136} x *STB?), S3 (every value 0..255 and out-of-range/rounded values written to *ESE/*SRE and read back), S4 (error queue, QUES summary, OPER summary, ESB and MAV in every combination against seven *SRE masks); every transition runs the real Node::run and compares response, return value and all device registers/queue with the 488.2 section 11 reference model; counted non-trivial = state-changing transitions",
         vec![
             "summary bit of OPER/QUES = event & enable (IEEE 488.2 11.4.3 / SCPI-99 9), see DESIGN.md section 3.4".into(),
             "*CLS clears ESR, both event registers and the error queue (SCPI-99 4.1.3.2), no enable register".into(),
